@@ -74,6 +74,9 @@ def configs(tier):
         add(d=2, q=3, m=1, mode=mode, imputer='default', storage='batch')
         add(d=2, q=2, m=1, mode=mode, imputer='joint', storage='batch', memoise=True)
         add(group='grow', d=2, q=1, mode=mode, imputer='joint', storage='batch')
+        add(d=2, q=1, q_call=2, m=2, mode=mode, imputer='joint', storage='batch')
+        add(d=2, q=2, q_call=1, m=2, mode=mode, imputer='product', storage='batch')
+        add(d=2, q=1, q_call=3, m=2, mode=mode, imputer='joint', storage='batch', _cost=800)
         add(group='long', d=2, q=2, T=5 if tier == 'quick' else 7, mode=mode, imputer='default', storage='interval', cap=2,
             alpha_value='1/4', _cost=300)
         for st in ('interval', 'geometric', 'uniform'):
@@ -212,7 +215,11 @@ def _step(env, cfg):
                 'mpred': {l: (pre['mpred'][l]['val'], N) for l in pre['mpred']}}
     b['rows_now'] = list(b['rows'])
     b['calls_before'] = len(b['model'].calls)
-    ret = guarded(env, 'explain_one', b['ex'].explain_one, b['x'], b['y'])
+    kw = {}
+    if 'q_call' in cfg:
+        kw['n_inner_samples'] = cfg['q_call']
+        b['q'] = cfg['q_call']
+    ret = guarded(env, 'explain_one', b['ex'].explain_one, b['x'], b['y'], **kw)
     _reference_and_claims(env, b, pre_vals, b['x'], b['y'])
     env.claim('returns_importance_values', And(*[eq(ret[f], ex.importance_values[f]) for f in names]))
     env.claim('model_outputs_not_modified_by_the_library', b['model'].outputs_intact())
